@@ -5,6 +5,9 @@ package props
 // datagrams from distinct 127.0.0.x exporter addresses, reads the restful stats API, delivers signals.
 
 import (
+	"runtime"
+	"unsafe"
+
 	"bytes"
 	"encoding/json"
 	"fmt"
@@ -85,6 +88,12 @@ type e2eConfig struct {
 	// ReadyWithout: protocols the caller expects not to run (switched off through sources of its own); readiness
 	// does not wait for them
 	ReadyWithout map[string]bool
+	// RelCache: the two cache-file settings are relative names and the process runs in <dir>/run while its
+	// configuration lives in <dir> (relative names are an ordinary way to write a configuration)
+	RelCache bool
+	// CPUs > 0: the process is started with its CPU affinity restricted to that many CPUs (what the runtime
+	// reports as the number of CPUs; a container limit or taskset does the same)
+	CPUs int
 }
 
 // startVflow writes the configuration into dir and starts the collector; a start that fails because a port
@@ -127,12 +136,26 @@ func startVflowOnce(dir string, ports e2ePorts, cfg e2eConfig, race bool) (*vflo
 		"netflow9-tpl-cache-file": fmt.Sprintf("%q", filepath.Join(dir, "netflow9.templates")),
 		"mq-name":                 "rawSocket", "mq-config-file": "mq.conf",
 	}
+	if cfg.RelCache {
+		lines["ipfix-tpl-cache-file"] = `"ipfix.templates"`
+		lines["netflow9-tpl-cache-file"] = `"netflow9.templates"`
+	}
 	for proto, key := range map[string]string{"ipfix": "ipfix-enabled", "nf9": "netflow9-enabled", "nf5": "netflow5-enabled", "sflow": "sflow-enabled"} {
 		if cfg.Disabled[proto] {
 			lines[key] = "false"
 		}
 	}
+	mqLines := map[string]string{"url": fmt.Sprintf("%q", cfg.SinkAddr), "protocol": "tcp", "retry-max": "2"}
 	for k, v := range cfg.Extra {
+		if strings.HasPrefix(k, "mq:") {
+			// a setting of the producer's own configuration file ("~drop~" removes the line)
+			if v == "~drop~" {
+				delete(mqLines, strings.TrimPrefix(k, "mq:"))
+			} else {
+				mqLines[strings.TrimPrefix(k, "mq:")] = v
+			}
+			continue
+		}
 		lines[k] = v
 	}
 	var sb strings.Builder
@@ -145,7 +168,11 @@ func startVflowOnce(dir string, ports e2ePorts, cfg e2eConfig, race bool) (*vflo
 	if err := os.WriteFile(filepath.Join(dir, "vflow.conf"), []byte(sb.String()), 0o644); err != nil {
 		return nil, err
 	}
-	os.WriteFile(filepath.Join(dir, "mq.conf"), []byte(fmt.Sprintf("url: %q\nprotocol: tcp\nretry-max: 2\n", cfg.SinkAddr)), 0o644)
+	var mq strings.Builder
+	for k, v := range mqLines {
+		mq.WriteString(k + ": " + v + "\n")
+	}
+	os.WriteFile(filepath.Join(dir, "mq.conf"), []byte(mq.String()), 0o644)
 	os.Remove(filepath.Join(dir, "vflow.pid"))
 
 	p := &vflowProc{dir: dir, ports: ports, done: make(chan struct{})}
@@ -153,12 +180,16 @@ func startVflowOnce(dir string, ports e2ePorts, cfg e2eConfig, race bool) (*vflo
 	p.cmd = exec.Command(bin, args...)
 	p.cmd.Env = append(append(os.Environ(), "GORACE=halt_on_error=0"), cfg.Env...)
 	p.cmd.Dir = dir
+	if cfg.RelCache {
+		p.cmd.Dir = filepath.Join(dir, "run")
+		os.MkdirAll(p.cmd.Dir, 0o755)
+	}
 	se, err := p.cmd.StderrPipe()
 	if err != nil {
 		return nil, err
 	}
 	p.cmd.Stdout = nil
-	if err := p.cmd.Start(); err != nil {
+	if err := startWithCPUs(p.cmd, cfg.CPUs); err != nil {
 		return nil, err
 	}
 	go func() {
@@ -198,6 +229,35 @@ func startVflowOnce(dir string, ports e2ePorts, cfg e2eConfig, race bool) (*vflo
 	}
 	p.kill()
 	return p, fmt.Errorf("collector did not report all enabled listeners through its stats API within 10 s: %s", p.stderrTail())
+}
+
+// startWithCPUs starts cmd; with n > 0 the child inherits an affinity mask of the first n CPUs this process may use
+// (the affinity of the forking thread is narrowed around the fork and restored afterwards).
+func startWithCPUs(cmd *exec.Cmd, n int) error {
+	if n <= 0 {
+		return cmd.Start()
+	}
+	runtime.LockOSThread()
+	defer runtime.UnlockOSThread()
+	var old, narrow [16]uint64
+	if _, _, e := syscall.RawSyscall(syscall.SYS_SCHED_GETAFFINITY, 0, uintptr(len(old)*8), uintptr(unsafe.Pointer(&old[0]))); e != 0 {
+		return cmd.Start()
+	}
+	left := n
+	for w := range old {
+		for b := uint(0); b < 64 && left > 0; b++ {
+			if old[w]&(1<<b) != 0 {
+				narrow[w] |= 1 << b
+				left--
+			}
+		}
+	}
+	if _, _, e := syscall.RawSyscall(syscall.SYS_SCHED_SETAFFINITY, 0, uintptr(len(narrow)*8), uintptr(unsafe.Pointer(&narrow[0]))); e != 0 {
+		return cmd.Start()
+	}
+	err := cmd.Start()
+	syscall.RawSyscall(syscall.SYS_SCHED_SETAFFINITY, 0, uintptr(len(old)*8), uintptr(unsafe.Pointer(&old[0])))
+	return err
 }
 
 func (p *vflowProc) stderrText() string {
